@@ -10,7 +10,7 @@ CONSTANTS
   MaxFail = 1
   MaxSync = 1
   Eager = FALSE
-  SendHoldsLock = TRUE
+  SendHoldsLock = FALSE
   MaxApply = 1
   Gated = {FALSE}
   Hist = FALSE
